@@ -108,7 +108,9 @@ def run(pid, tier):
         behs = behaviours(chk, tier, chk.seed, pid)
         nb = 45 if tier == "quick" else 900
         for i, b in enumerate(pick_for(pid, behs, nb, rng)):
-            scenarios.append(runlib.scenario_from_behaviour(b, i, rng))
+            # C06 quantifies over delays of the run's own bookkeeping and over children that outlive a failure
+            variant = (i % 3) if pid == "C06" else (1 if i % 7 == 3 else 0)
+            scenarios.append(runlib.scenario_from_behaviour(b, i, rng, variant))
         nr = 25 if tier == "quick" else 500
         for i in range(nr):
             fp = {"C06": 0.8, "C04": 0.15, "C05": 0.4}[pid]
